@@ -271,7 +271,7 @@ static void do_numsweep(long count)
     al_case_begin();
     if (!VD_TRY()) { viol("*", "numeric sweep: memory fault"); return; }
     for (i = 0; i < count; i++) {
-        char *p = lit; cJSON *t; int fam = (int)(i % 6);
+        char *p = lit; cJSON *t; int fam = (int)(i % 7);
         if ((i & 1023) == 0) vd_tick();
         if (lcg(4) == 0) *p++ = '-';
         switch (fam) {
@@ -280,6 +280,8 @@ static void do_numsweep(long count)
             case 2: digits(&p, 1 + (int)lcg(17), 1); *p++ = lcg(2) ? 'e' : 'E'; if (lcg(3)) *p++ = lcg(2) ? '-' : '+'; digits(&p, 1, 0); if (lcg(2)) digits(&p, 1, 0); break;   /* small exponents */
             case 3: digits(&p, 1, 1); *p++ = '.'; digits(&p, 1 + (int)lcg(17), 0); *p++ = 'e'; *p++ = lcg(2) ? '-' : '+'; p += sprintf(p, "%u", lcg(309)); break;
             case 4: digits(&p, 19 + (int)lcg(20), 1); if (lcg(2)) { *p++ = '.'; digits(&p, 1 + (int)lcg(10), 0); } break;                  /* more digits than a double holds */
+            case 5: { static const char *const EX[] = { "4294967296", "4294967297", "4294967318", "2147483648", "2147483649", "9223372036854775808", "18446744073709551616", "18446744073709551621", "65536", "65541", "32773", "12884901890", "10000000000", "4294967295" };
+                      digits(&p, 1 + (int)lcg(4), 1); if (lcg(2)) { *p++ = '.'; digits(&p, 1 + (int)lcg(3), 0); } *p++ = lcg(2) ? 'e' : 'E'; if (lcg(3)) *p++ = lcg(2) ? '-' : '+'; p += sprintf(p, "%s", EX[lcg(sizeof(EX) / sizeof(EX[0]))]); break; }   /* exponents beyond 16 / 32 / 64 bits */
             default: digits(&p, 1 + (int)lcg(10), 1); if (lcg(2)) { *p++ = '.'; digits(&p, 1 + (int)lcg(6), 0); } break;               /* short, everyday */
         }
         *p = 0;
@@ -343,25 +345,35 @@ static void *deep_thread(void *arg) { deepjob *j = (deepjob*)arg; j->res = cJSON
 static void deep_cases(void)
 {
 #ifndef VD_LIMITS
-    static const struct { int depth; char open, close; int expect; } T[] = {
-        { 999, '[', ']', 1 }, { 1000, '[', ']', 1 }, { 1001, '[', ']', 0 }, { 100000, '[', 0, 0 }, { 100000, '{', 0, 0 }, { 1000, '{', '}', 1 }, { 1001, '{', '}', 0 } };
+    /* depth levels of open (after an optional prefix that adds one level and ends in a string whose last character is an escaped backslash / a quote /
+     * a bracket), a leaf in the innermost container when it is closed; expect: accepted iff the total depth is within CJSON_NESTING_LIMIT = 1000 */
+    static const struct { int depth; char open, close; int expect; int leaf; const char *prefix; } T[] = {
+        { 999, '[', ']', 1, 0, "" }, { 1000, '[', ']', 1, 0, "" }, { 1001, '[', ']', 0, 0, "" }, { 100000, '[', 0, 0, 0, "" }, { 100000, '{', 0, 0, 0, "" }, { 1000, '{', '}', 1, 1, "" }, { 1001, '{', '}', 0, 1, "" },
+        { 1000, '[', ']', 1, 1, "" }, { 1001, '[', ']', 0, 1, "" }, { 999, '[', ']', 1, 1, "[\"\\\\\"," }, { 1000, '[', ']', 0, 1, "[\"\\\\\"," }, { 1500, '[', ']', 0, 0, "[\"\\\\\"," },
+        { 1000, '{', '}', 0, 1, "{\"k\\\\\":" }, { 999, '{', '}', 1, 1, "{\"k\\\\\":" }, { 1000, '[', ']', 0, 1, "[\"a\\\"\"," }, { 1000, '[', ']', 0, 1, "[\"]]]]\"," }, { 999, '[', ']', 1, 1, "[\"[[[[\"," },
+        { 1000, '[', ']', 0, 0, "[\"\\\\\\\"]\"," }, { 60000, '[', 0, 0, 0, "[\"\\\\\"," } };
     size_t i;
     for (i = 0; i < sizeof(T) / sizeof(T[0]); i++) {
-        size_t cap = (size_t)T[i].depth * 8 + 16, n = 0; char *s = (char*)malloc(cap); int d;
+        size_t cap = (size_t)T[i].depth * 8 + 64, n = 0; char *s = (char*)malloc(cap); int d, extra = T[i].prefix[0] ? 1 : 0;
         pthread_t th; pthread_attr_t at; deepjob job;
+        memcpy(s, T[i].prefix, strlen(T[i].prefix)); n = strlen(T[i].prefix);
         for (d = 0; d < T[i].depth; d++) { if (T[i].open == '[') s[n++] = '['; else { memcpy(s + n, "{\"a\":", 5); n += 5; } }
-        if (T[i].close) { if (T[i].open == '{') s[n++] = '1'; for (d = 0; d < T[i].depth; d++) s[n++] = T[i].close; }
+        if (T[i].close) { if (T[i].open == '{' || T[i].leaf) s[n++] = '1'; for (d = 0; d < T[i].depth; d++) s[n++] = T[i].close; if (extra) s[n++] = (T[i].prefix[0] == '[') ? ']' : '}'; }
         al_case_begin();
         job.buf = s; job.len = n; job.res = NULL;
         pthread_attr_init(&at); pthread_attr_setstacksize(&at, 512 * 1024);
         VD.cases++;
         if (VD_TRY()) {
             pthread_create(&th, &at, deep_thread, &job); pthread_join(th, NULL);
-            if ((job.res != NULL) != (T[i].expect != 0)) viol(T[i].expect ? "C02" : "C03", "nesting depth %d with '%c': %s", T[i].depth, T[i].open, job.res ? "accepted beyond CJSON_NESTING_LIMIT" : "rejected within CJSON_NESTING_LIMIT");
-            if (job.res) { char *p = cJSON_PrintUnformatted(job.res); if (!p) viol("C01", "deeply nested tree cannot be printed"); cJSON_free(p); cJSON_Delete(job.res); }
+            if ((job.res != NULL) != (T[i].expect != 0)) viol(T[i].expect ? "C02" : "C03", "nesting depth %d with '%c' after the prefix %s: %s", T[i].depth, T[i].open, T[i].prefix, job.res ? "accepted beyond CJSON_NESTING_LIMIT" : "rejected within CJSON_NESTING_LIMIT");
+            if (job.res) { char *p = cJSON_PrintUnformatted(job.res), *q = cJSON_Print(job.res), *r = cJSON_PrintBuffered(job.res, 16, 1);
+                if (!p || !q || !r) viol("C01 C04 C05", "a tree nested %d deep, which the parser accepted, cannot be printed (%s%s%s returned NULL)", T[i].depth + extra, p ? "" : "PrintUnformatted ", q ? "" : "Print ", r ? "" : "PrintBuffered");
+                else { cJSON *back = cJSON_Parse(p); if (!back) viol("C04", "the text printed for a tree nested %d deep does not parse back", T[i].depth + extra); cJSON_Delete(back);
+                       { size_t L = strlen(p); char *pb = (char*)malloc(L + 8); if (!cJSON_PrintPreallocated(job.res, pb, (int)L + 6, 0) || strcmp(pb, p)) viol("C09 C05", "cJSON_PrintPreallocated fails or differs on a tree nested %d deep", T[i].depth + extra); free(pb); } }
+                cJSON_free(p); cJSON_free(q); cJSON_free(r); cJSON_Delete(job.res); }
             if (al_live != 0) viol("C03", "nesting depth %d: %ld block(s) remain allocated", T[i].depth, al_live);
             VD_END();
-        } else viol("C01", "nesting depth %d with '%c': crash (stack exhaustion?)", T[i].depth, T[i].open);
+        } else viol("*", "nesting depth %d with '%c' after the prefix %s: crash (stack exhaustion?)", T[i].depth, T[i].open, T[i].prefix);
         free(s);
     }
 #endif
